@@ -127,6 +127,7 @@ def network_simplex(
             state[arc] = 0
 
     iterations = 0
+    converged = False  # pricing found no improving arc (as opposed to running out of iterations)
     if _verif.ENABLED:  # pragma: no cover
         _verif.emit(
             "ns_init",
@@ -162,6 +163,7 @@ def network_simplex(
                 entering = arc
 
         if entering == -1:
+            converged = True
             break  # Optimal: no improving arc found
 
         u, v = source[entering], target[entering]
@@ -257,7 +259,9 @@ def network_simplex(
 
     for arc in range(m, total_arcs):
         if flow[arc] > 0:
-            return Result(None, float("inf"), iterations, total_arcs, Status.INFEASIBLE)
+            # Flow left on an artificial arc proves infeasibility only at optimality of the big-M problem
+            status = Status.INFEASIBLE if converged else Status.MAX_ITER
+            return Result(None, float("inf"), iterations, total_arcs, status)
 
     total_cost = sum(flow[i] * cost[i] for i in range(m))
     # Parallel arcs share a key: report their combined flow (as min_cost_flow does)
@@ -267,7 +271,7 @@ def network_simplex(
             key = (source[i], target[i])
             flow_dict[key] = flow_dict.get(key, 0) + flow[i]
 
-    return Result(flow_dict, total_cost, iterations, total_arcs)
+    return Result(flow_dict, total_cost, iterations, total_arcs, Status.OPTIMAL if converged else Status.FEASIBLE)
 
 
 def _rebuild_tree(root, tree_arcs, source, target, cost, parent, pred, depth, pi):
